@@ -17,9 +17,15 @@ import (
 // ---- generators for the responder's answer ------------------------------------------
 
 type c19Answer struct {
-	Kind     string // "accept", "queryreply", "refuse"
-	Version  uint64
-	VClass   string // proposed | unproposed-same-table | unproposed-other-table | unknown
+	Kind    string // "accept", "queryreply", "refuse"
+	Version uint64
+	VClass  string // proposed | unproposed-same-table | unproposed-other-table | unknown | wide
+	// wide versions: an integer outside 0..65535 whose low 16 bits are Base
+	// (two's complement for negative ones), sent in form WideForm
+	VNode    *xcbor.Node // how the version number is encoded (nil: minimal uint of Version)
+	Base     uint64
+	WideForm string // uint | uint-8byte | nint | bignum | neg-bignum
+	WideDesc string
 	Data     *xcbor.Node
 	DataGen  string // how the data was produced (generator class, not the verdict)
 	Msg      []byte
@@ -154,6 +160,64 @@ func genData(rt *rapid.T, fam family, own uint32, proposed *xcbor.Node) (*xcbor.
 var unknownVersions = []uint64{0, 3, 4, 5, 6, 16, 17, 100, 0x0fff, dmqNtcBit, dmqNtcBit + 2, 0x7fff, ntcBit, ntcBit + 1, ntcBit + 8, ntcBit + 22, ntcBit + 100, 0xffff,
 	0x10000, 0x10000 + 13, 0x10000 + ntcBit + 16, 0x10000 + dmqNtcBit + 1, 1 << 32, (1 << 32) + 13}
 
+// ---- wide version numbers -------------------------------------------------------------
+//
+// The handshake version number is a 16-bit quantity; an integer outside
+// 0..65535 is no version any initiator proposed, whatever its low 16 bits are.
+
+var wideMultipliers = []uint64{1, 2, 3, 0xffff, 0x10000, 0x10001, 1 << 31, 1 << 47, (1 << 48) - 1}
+var wideForms = []string{"uint", "uint", "uint-8byte", "nint", "bignum", "neg-bignum"}
+
+func beBytes(v uint64, extra byte) []byte {
+	var b []byte
+	for i := 7; i >= 0; i-- {
+		if c := byte(v >> (8 * i)); c != 0 || len(b) > 0 {
+			b = append(b, c)
+		}
+	}
+	if extra != 0 { // one more leading byte: a value above 2^64
+		pad := make([]byte, 8-len(b))
+		b = append(append([]byte{extra}, pad...), b...)
+	}
+	return b
+}
+
+// wideAnswer fills the version part of an acceptance with base + k*65536
+// (positive forms) or base - k*65536 (negative forms).
+func wideAnswer(a c19Answer, base, k uint64, form string) c19Answer {
+	a.VClass, a.Base, a.WideForm = "wide", base, form
+	pos := base + k<<16        // < 2^64 for every multiplier in the table
+	negArg := k<<16 - base - 1 // CBOR argument n of the negative integer -1-n == base - k*65536
+	switch form {
+	case "uint":
+		a.VNode = xcbor.U(pos)
+		a.WideDesc = fmt.Sprintf("%d (=%d+%d*65536)", pos, base, k)
+	case "uint-8byte":
+		a.VNode = &xcbor.Node{Kind: xcbor.Uint, Arg: pos, Width: 8}
+		a.WideDesc = fmt.Sprintf("%d (=%d+%d*65536, 8-byte head)", pos, base, k)
+	case "nint":
+		a.VNode = xcbor.NegArg(negArg)
+		a.WideDesc = fmt.Sprintf("-%d (=%d-%d*65536)", negArg+1, base, k)
+	case "bignum":
+		// also beyond 64 bits: base + k*65536 + 2^64
+		a.VNode = xcbor.Tg(2, xcbor.B(beBytes(pos, byte(k&1))))
+		a.WideDesc = fmt.Sprintf("bignum %x (low 16 bits %d)", beBytes(pos, byte(k&1)), base)
+	case "neg-bignum":
+		a.VNode = xcbor.Tg(3, xcbor.B(beBytes(negArg, 0)))
+		a.WideDesc = fmt.Sprintf("negative bignum -1-%x (low 16 bits %d)", beBytes(negArg, 0), base)
+	}
+	a.Version = pos
+	return a
+}
+
+func (a c19Answer) encodeAccept() []byte {
+	v := a.VNode
+	if v == nil {
+		v = xcbor.U(a.Version)
+	}
+	return xcbor.A(xcbor.U(1), v, a.Data).Encode()
+}
+
 func genAnswer(rt *rapid.T, prop proposal, propTable string, own uint32, queryClient, maySplit bool) c19Answer {
 	a := c19Answer{Kind: "accept"}
 	switch rapid.IntRange(0, 19).Draw(rt, "answerKind") {
@@ -200,7 +264,7 @@ func genAnswer(rt *rapid.T, prop proposal, propTable string, own uint32, queryCl
 				unproposedOther = append(unproposedOther, v)
 			}
 		}
-		classes := []string{"proposed", "proposed", "proposed", "unproposed-other-table", "unproposed-other-table", "unknown"}
+		classes := []string{"proposed", "proposed", "proposed", "unproposed-other-table", "unproposed-other-table", "unknown", "wide"}
 		if len(unproposedSame) > 0 {
 			classes = append(classes, "unproposed-same-table", "unproposed-same-table")
 		}
@@ -213,6 +277,32 @@ func genAnswer(rt *rapid.T, prop proposal, propTable string, own uint32, queryCl
 			a.Version = rapid.SampledFrom(unproposedSame).Draw(rt, "vSame")
 		case "unproposed-other-table":
 			a.Version = rapid.SampledFrom(unproposedOther).Draw(rt, "vOther")
+		case "wide":
+			// a number outside uint16 that wraps (mod 65536) to a version
+			base := rapid.SampledFrom(prop.Versions).Draw(rt, "wBaseProposed")
+			switch rapid.IntRange(0, 5).Draw(rt, "wBaseKind") {
+			case 4:
+				base = rapid.SampledFrom(append(append([]uint64{}, unproposedOther...), unproposedSame...)).Draw(rt, "wBaseKnown")
+			case 5:
+				base = rapid.SampledFrom([]uint64{0, 6, 16, 0xffff}).Draw(rt, "wBaseUnknown")
+			}
+			k := rapid.SampledFrom(wideMultipliers).Draw(rt, "wK")
+			form := rapid.SampledFrom(wideForms).Draw(rt, "wForm")
+			a = wideAnswer(a, base, k, form)
+			fam := famNone
+			if vi, ok := refVersion(base); ok {
+				fam = vi.Fam
+			}
+			if rapid.IntRange(0, 3).Draw(rt, "wDataAny") == 0 {
+				a.Data, a.DataGen = genData(rt, fam, own, prop.Data[base])
+			} else if p := prop.Data[base]; p != nil && rapid.Bool().Draw(rt, "wEcho") {
+				a.Data, a.DataGen = p.Clone(), "echo"
+			} else {
+				if fam == famNone {
+					fam = rapid.SampledFrom(allFamilies).Draw(rt, "wFam")
+				}
+				a.Data, a.DataGen = refData(fam, genFlagsData(rt, fam, uint64(own))), "canon-own"
+			}
 		default:
 			if rapid.IntRange(0, 3).Draw(rt, "vUnknownRand") == 0 {
 				for i := 0; ; i++ {
@@ -226,11 +316,13 @@ func genAnswer(rt *rapid.T, prop proposal, propTable string, own uint32, queryCl
 				a.Version = rapid.SampledFrom(unknownVersions).Draw(rt, "vUnknown")
 			}
 		}
-		if vi, ok := refVersion(a.Version); ok {
-			fam = vi.Fam
+		if a.VClass != "wide" {
+			if vi, ok := refVersion(a.Version); ok {
+				fam = vi.Fam
+			}
+			a.Data, a.DataGen = genData(rt, fam, own, prop.Data[a.Version])
 		}
-		a.Data, a.DataGen = genData(rt, fam, own, prop.Data[a.Version])
-		a.Msg = xcbor.A(xcbor.U(1), xcbor.U(a.Version), a.Data).Encode()
+		a.Msg = a.encodeAccept()
 	}
 	// how the message is cut into segments. The specification requires handshake
 	// messages to fit one segment and Connection reads exactly one segment before
@@ -262,6 +354,15 @@ func (a c19Answer) send(p *rawpeer.Peer) error {
 //	      own-magic item (counted, never flagged either way)
 //	vclass/dclass name the class for the finding key when it completes anyway
 func c19Verdict(a c19Answer, prop proposal, own uint32) (may, grey bool, vclass, dclass string, d vdata) {
+	if a.VClass == "wide" {
+		wraps := "unknown"
+		if prop.has(a.Base) {
+			wraps = "proposed"
+		} else if _, ok := refVersion(a.Base); ok {
+			wraps = "unproposed-known"
+		}
+		return false, false, "wide-version:" + a.WideForm, "wraps-to-" + wraps, d
+	}
 	vi, known := refVersion(a.Version)
 	switch {
 	case prop.has(a.Version):
@@ -298,101 +399,232 @@ func c19Verdict(a c19Answer, prop proposal, own uint32) (may, grey bool, vclass,
 	return
 }
 
+// ---- one handshake against the raw peer -------------------------------------------------
+
+type c19Client struct {
+	Direct   bool
+	Cfg      connCfg  // conn driver
+	Table    string   // direct driver: sub-table
+	Versions []uint64 // direct driver
+	IO, PS   bool     // direct driver flags
+	Query    bool
+	Own      uint32
+}
+
+func (c c19Client) table() string {
+	if c.Direct {
+		return c.Table
+	}
+	return c.Cfg.table()
+}
+
+func (c c19Client) desc() string {
+	if c.Direct {
+		return fmt.Sprintf("direct %s{%s} io=%v ps=%v q=%v magic=%d", c.Table, versionsString(c.Versions), c.IO, c.PS, c.Query, c.Own)
+	}
+	return "conn " + c.Cfg.String()
+}
+
+type c19Outcome struct {
+	Prop      proposal
+	Completed bool
+	Version   uint16
+	Data      protocol.VersionData
+	Err       error
+}
+
+// runC19 starts the initiator, reads its proposal, sends the answer built by mk
+// and collects the outcome. probKey != "" reports a harness problem or a hang
+// (with a goroutine dump in probCase).
+func runC19(cl c19Client, planA, planB rawpeer.Plan, mk func(proposal) c19Answer) (out c19Outcome, ans c19Answer, probKey, probWhat string, probCase map[string]any) {
+	a, b := rawpeer.Pipe(planA, planB)
+	peer := rawpeer.NewPeer(b)
+	defer peer.Close()
+	cfgDesc := cl.desc()
+	var resCh <-chan connResult
+	var de *directEnd
+	if cl.Direct {
+		vm := libVersionMap(cl.Table, cl.Versions, cl.Own, cl.IO, cl.PS, cl.Query)
+		de = newDirect(a, protoMode(cl.Table), false, vm)
+		de.start()
+		defer de.stop()
+	} else {
+		resCh = startConn(cl.Cfg.options(ouroboros.WithConnection(a)))
+	}
+	// whatever happens, do not leave a Connection behind
+	finishConn := func() {
+		if resCh != nil {
+			_ = a.Close()
+			if r, ok := await(resCh); ok && r.Conn != nil {
+				closeConn(r.Conn)
+			}
+		}
+	}
+	msg, err := peer.NextMsg(0, false, longWait)
+	if err != nil {
+		dump := goroutineDump()
+		finishConn()
+		return out, ans, "harness:no-proposal", fmt.Sprintf("%s: no ProposeVersions within %v: %v", cfgDesc, longWait, err), map[string]any{"config": cfgDesc, "goroutines": dump}
+	}
+	prop, err := parseProposal(msg)
+	if err != nil || len(prop.Versions) == 0 {
+		finishConn()
+		return out, ans, "proposal-malformed", fmt.Sprintf("%s: proposal %x: %v", cfgDesc, msg, err), map[string]any{"config": cfgDesc, "proposal": evi.Hex(msg)}
+	}
+	out.Prop = prop
+	ans = mk(prop)
+	if err := ans.send(peer); err != nil {
+		finishConn()
+		return out, ans, "harness:send-failed", err.Error(), map[string]any{"config": cfgDesc}
+	}
+	if cl.Direct {
+		fin, e, ok := de.outcome()
+		if !ok {
+			return out, ans, "hang:direct-client-no-outcome", cfgDesc + ": neither FinishedFunc nor an error within " + longWait.String(),
+				map[string]any{"config": cfgDesc, "answer": evi.Hex(ans.Msg), "goroutines": goroutineDump()}
+		}
+		if fin != nil {
+			out.Completed, out.Version, out.Data = true, fin.Version, fin.Data
+		}
+		out.Err = e
+		return
+	}
+	r, ok := await(resCh)
+	if !ok {
+		return out, ans, "hang:newconnection-no-outcome", cfgDesc + ": NewConnection did not return within " + longWait.String(),
+			map[string]any{"config": cfgDesc, "answer": evi.Hex(ans.Msg), "goroutines": goroutineDump()}
+	}
+	if r.Err == nil && r.Conn != nil {
+		out.Completed = true
+		out.Version, out.Data = r.Conn.ProtocolVersion()
+		if _, ok := closeConn(r.Conn); !ok {
+			return out, ans, "hang:close", cfgDesc + ": Close/shutdown did not finish", map[string]any{"config": cfgDesc, "goroutines": goroutineDump()}
+		}
+	}
+	out.Err = r.Err
+	return
+}
+
+// c19WideSweep is a small deterministic enumeration run in every tier at every
+// seed: for a fixed set of clients and for proposed / unproposed / unknown base
+// versions v, an acceptance of v + k*65536 (and v - k*65536) in every integer
+// encoding, with version data that would be perfectly valid for v and carries
+// the client's magic. None of these numbers was proposed; none may be accepted.
+func c19WideSweep(rec *evi.Recorder) {
+	clients := []c19Client{
+		{Cfg: connCfg{Mode: "ntc", Magic: 764824073}, Own: 764824073},
+		{Cfg: connCfg{Mode: "ntn", Magic: 2, FullDuplex: true, PeerSharing: true}, Own: 2},
+		{Cfg: connCfg{Mode: "dmq", Magic: 3141592}, Own: 3141592},
+		{Direct: true, Table: "ntn", Versions: []uint64{13}, Own: 42},
+		{Direct: true, Table: "dmq-ntn", Versions: []uint64{1, 2}, IO: true, Own: 1},
+		{Direct: true, Table: "ntc", Versions: []uint64{ntcBit + 9, ntcBit + 16}, Own: 999},
+	}
+	n := 0
+	for _, cl := range clients {
+		table := refTable(cl.table())
+		if cl.Direct {
+			table = cl.Versions
+		}
+		bases := []uint64{table[0], table[len(table)-1]}
+		// one known-but-unproposed and one unknown base
+		for _, v := range allKnownVersions() {
+			in := false
+			for _, t := range table {
+				in = in || t == v
+			}
+			if !in {
+				bases = append(bases, v)
+				break
+			}
+		}
+		bases = append(bases, 0xffff)
+		for bi, base := range bases {
+			for ki, k := range []uint64{1, 2, 0xffff, 0x10000, 1 << 47} {
+				for fi, form := range []string{"uint", "uint-8byte", "nint", "bignum", "neg-bignum"} {
+					// thin out the unproposed / unknown bases
+					if bi >= 2 && (ki+fi)%3 != 0 {
+						continue
+					}
+					out, ans, probKey, probWhat, probCase := runC19(cl, nil, nil, func(prop proposal) c19Answer {
+						a := wideAnswer(c19Answer{Kind: "accept"}, base, k, form)
+						fam := famNtN13
+						if vi, ok := refVersion(base); ok {
+							fam = vi.Fam
+						}
+						if p := prop.Data[base]; p != nil && (ki+fi)%2 == 0 {
+							a.Data, a.DataGen = p.Clone(), "echo"
+						} else {
+							a.Data, a.DataGen = refData(fam, vdata{Magic: uint64(cl.Own), InitiatorOnly: true}), "canon-own"
+						}
+						a.Msg = a.encodeAccept()
+						a.SegSizes = []int{len(a.Msg)}
+						return a
+					})
+					if probKey != "" {
+						rec.Violation("sweep:"+probKey, probWhat, probCase)
+						return
+					}
+					rec.Eval()
+					n++
+					_, _, vclass, dclass, _ := c19Verdict(ans, out.Prop, cl.Own)
+					rec.Class("sweep:" + vclass)
+					cs := map[string]any{"config": cl.desc(), "proposed": versionsString(out.Prop.Versions), "answer": evi.Hex(ans.Msg),
+						"version_on_wire": ans.WideDesc, "wraps_to": verName(base), "completed": out.Completed, "got_version": out.Version, "error": errString(out.Err)}
+					rec.NonTrivial(fmt.Sprintf("sweep|%s|%x", cl.desc(), ans.Msg), cs)
+					if out.Completed {
+						rec.Violation(fmt.Sprintf("accepted:%s:%s", vclass, dclass),
+							fmt.Sprintf("%s (proposed {%s}) completed the handshake on AcceptVersion(version=%s, data=%x); reported version %d - the number on the wire is not a 16-bit version and was never proposed",
+								cl.desc(), versionsString(out.Prop.Versions), ans.WideDesc, ans.Data.Encode(), out.Version), cs)
+					}
+				}
+			}
+		}
+	}
+	rec.SetExtra("wide_version_sweep_cases", n)
+}
+
 func TestC19(t *testing.T) {
 	rec := evi.New(t, "C19", evi.Exploration,
-		"a real initiator (ouroboros.Connection client in NtC / NtN(±full-duplex,±peer-sharing) / DMQ mode, or protocol/handshake.Client with a generated sub-table of NtN/NtC/DMQ-NtC/DMQ-NtN on a real muxer) proposes; a raw peer answers with a generated message: AcceptVersion{version ∈ proposed | known-but-unproposed (same table / other table) | unknown (incl. >16 bit)} × data{canonical own magic | canonical foreign magic | echo | other family's shape | structurally mutated | garbage | restyled heads}, or a QueryReply / a Refuse; oracle: the initiator completes (NewConnection err==nil / FinishedFunc called) only if version ∈ the set read off the wire ∧ data valid per the version's CDDL ∧ magic == own, and a canonical valid acceptance does complete with exactly that version and data; non-trivial = an answer that must NOT complete the handshake; distinct by (driver, client config class, proposed set, answer bytes)")
+		"a real initiator (ouroboros.Connection client in NtC / NtN(±full-duplex,±peer-sharing) / DMQ mode, or protocol/handshake.Client with a generated sub-table of NtN/NtC/DMQ-NtC/DMQ-NtN on a real muxer) proposes; a raw peer answers with a generated message: AcceptVersion{version ∈ proposed | known-but-unproposed (same table / other table) | unknown | wide: v+k*65536 / v-k*65536 for proposed, unproposed and unknown v as 4-/8-byte uint, negative int, positive / negative bignum (also as a deterministic sweep over 6 fixed clients run at every seed)} × data{canonical own magic | canonical foreign magic | echo | other family's shape | structurally mutated | garbage | restyled heads}, or a QueryReply / a Refuse; oracle: the initiator completes (NewConnection err==nil / FinishedFunc called) only if version ∈ the set read off the wire ∧ data valid per the version's CDDL ∧ magic == own, and a canonical valid acceptance does complete with exactly that version and data; non-trivial = an answer that must NOT complete the handshake; distinct by (driver, client config class, proposed set, answer bytes)")
 	defer rec.Finish()
 	rec.Assume(
 		"the proposed set is read off the wire with the harness's own CBOR parser (ground truth of what was offered)",
 		"validity of version data is the harness's strict reading of the handshake CDDL; tolerated-lenient decodings (peer-sharing value out of range, null for a field) are counted separately, not flagged",
 		"each client offers one network magic for all its versions (as every table constructor of the library does)")
 
+	c19WideSweep(rec)
+
 	rec.Check(func(rt *rapid.T) {
 		own := genMagic(rt, "own")
 		direct := rapid.IntRange(0, 2).Draw(rt, "driver") == 2
 		planA, planB := genPlan(rt, "planLib"), genPlan(rt, "planPeer")
-		a, b := rawpeer.Pipe(planA, planB)
-		peer := rawpeer.NewPeer(b)
-		defer peer.Close()
-
-		var cfg connCfg
-		var propTable, cfgDesc string
-		var resCh <-chan connResult
-		var de *directEnd
 		queryClient := rapid.IntRange(0, 9).Draw(rt, "queryClient") == 9
+		cl := c19Client{Direct: direct, Query: queryClient, Own: own}
 		if direct {
-			propTable = rapid.SampledFrom(allTables).Draw(rt, "directTable")
-			vs := genSubset(rt, refTable(propTable), "directSubset")
-			initiatorOnly := rapid.Bool().Draw(rt, "directInitiatorOnly")
-			ps := rapid.Bool().Draw(rt, "directPS")
-			vm := libVersionMap(propTable, vs, own, initiatorOnly, ps, queryClient)
-			de = newDirect(a, protoMode(propTable), false, vm)
-			de.start()
-			defer de.stop()
-			cfgDesc = fmt.Sprintf("direct %s{%s} io=%v ps=%v q=%v magic=%d", propTable, versionsString(vs), initiatorOnly, ps, queryClient, own)
-			rec.Class("driver:direct:" + propTable)
+			cl.Table = rapid.SampledFrom(allTables).Draw(rt, "directTable")
+			cl.Versions = genSubset(rt, refTable(cl.Table), "directSubset")
+			cl.IO = rapid.Bool().Draw(rt, "directInitiatorOnly")
+			cl.PS = rapid.Bool().Draw(rt, "directPS")
+			rec.Class("driver:direct:" + cl.Table)
 		} else {
-			cfg = connCfg{
+			cl.Cfg = connCfg{
 				Mode:        rapid.SampledFrom([]string{"ntc", "ntn", "ntn", "dmq"}).Draw(rt, "mode"),
 				FullDuplex:  rapid.Bool().Draw(rt, "fd"),
 				PeerSharing: rapid.Bool().Draw(rt, "ps"),
 				Query:       queryClient,
 				Magic:       own,
 			}
-			propTable = cfg.table()
-			cfgDesc = "conn " + cfg.String()
-			resCh = startConn(cfg.options(ouroboros.WithConnection(a)))
-			rec.Class("driver:conn:" + cfg.Mode)
+			rec.Class("driver:conn:" + cl.Cfg.Mode)
 		}
-
-		msg, err := peer.NextMsg(0, false, longWait)
-		if err != nil {
-			rec.Fail(rt, "harness:no-proposal", fmt.Sprintf("%s: no ProposeVersions within %v: %v", cfgDesc, longWait, err),
-				map[string]any{"config": cfgDesc, "goroutines": goroutineDump()})
+		cfgDesc := cl.desc()
+		out, ans, probKey, probWhat, probCase := runC19(cl, planA, planB, func(prop proposal) c19Answer {
+			return genAnswer(rt, prop, cl.table(), own, queryClient, direct)
+		})
+		if probKey != "" {
+			rec.Fail(rt, probKey, probWhat, probCase)
 			return
 		}
-		prop, err := parseProposal(msg)
-		if err != nil || len(prop.Versions) == 0 {
-			rec.Fail(rt, "proposal-malformed", fmt.Sprintf("%s: proposal %x: %v", cfgDesc, msg, err), map[string]any{"config": cfgDesc, "proposal": evi.Hex(msg)})
-			return
-		}
-		ans := genAnswer(rt, prop, propTable, own, queryClient, direct)
-		if err := ans.send(peer); err != nil {
-			rt.Fatalf("harness: send failed: %v", err)
-		}
-
-		// outcome
-		var completed bool
-		var gotVersion uint16
-		var gotData protocol.VersionData
-		var gotErr error
-		if direct {
-			fin, e, ok := de.outcome()
-			if !ok {
-				rec.Fail(rt, "hang:direct-client-no-outcome", cfgDesc+": neither FinishedFunc nor an error within "+longWait.String(),
-					map[string]any{"config": cfgDesc, "answer": evi.Hex(ans.Msg), "goroutines": goroutineDump()})
-				return
-			}
-			if fin != nil {
-				completed, gotVersion, gotData = true, fin.Version, fin.Data
-			}
-			gotErr = e
-		} else {
-			r, ok := await(resCh)
-			if !ok {
-				rec.Fail(rt, "hang:newconnection-no-outcome", cfgDesc+": NewConnection did not return within "+longWait.String(),
-					map[string]any{"config": cfgDesc, "answer": evi.Hex(ans.Msg), "goroutines": goroutineDump()})
-				return
-			}
-			if r.Err == nil && r.Conn != nil {
-				completed = true
-				gotVersion, gotData = r.Conn.ProtocolVersion()
-				if _, ok := closeConn(r.Conn); !ok {
-					rec.Fail(rt, "hang:close", cfgDesc+": Close/shutdown did not finish", map[string]any{"config": cfgDesc, "goroutines": goroutineDump()})
-				}
-			}
-			gotErr = r.Err
-		}
+		prop, completed, gotVersion, gotData, gotErr := out.Prop, out.Completed, out.Version, out.Data, out.Err
 		rec.Eval()
 
 		cs := map[string]any{
@@ -435,6 +667,11 @@ func TestC19(t *testing.T) {
 
 		may, grey, vclass, dclass, want := c19Verdict(ans, prop, own)
 		cs["version"] = verName(ans.Version)
+		if ans.VClass == "wide" {
+			cs["version"] = ans.WideDesc
+			cs["wraps_to"] = verName(ans.Base)
+			rec.Class("wide:" + ans.WideForm)
+		}
 		cs["version_class"] = vclass
 		cs["data_class"] = dclass
 		cs["data_generator"] = ans.DataGen
